@@ -294,6 +294,35 @@ MEMBER_NAMES = {
 }
 
 
+SYMLINK_TARGETS = {
+    "via-symlink-abs": lambda root: os.path.join(root, "elsewhere"),
+    "via-symlink-dotdot": lambda root: "../../elsewhere",
+    "via-symlink-sibling": lambda root: "../sub",
+}
+
+
+def zip_with_symlink(target):
+    """an archive whose member `escape` is stored as a symbolic link to `target`, followed by members whose paths lead through
+    it (one that exists at the target - an overwrite - and one that does not)"""
+    b = io.BytesIO()
+    with zipfile.ZipFile(b, "w", zipfile.ZIP_DEFLATED) as z:
+        zi = zipfile.ZipInfo("first.txt")
+        zi.external_attr = 0o644 << 16
+        z.writestr(zi, b"first")
+        zi = zipfile.ZipInfo("escape")
+        zi.create_system = 3
+        zi.external_attr = (0o120777 << 16)
+        z.writestr(zi, target.encode())
+        for name in ("escape/there.txt", "escape/inner.txt", "escape/planted.txt"):
+            zi = zipfile.ZipInfo(name)
+            zi.external_attr = 0o644 << 16
+            z.writestr(zi, b"written through the link")
+        zi = zipfile.ZipInfo("last.txt")
+        zi.external_attr = 0o644 << 16
+        z.writestr(zi, b"last")
+    return b.getvalue()
+
+
 def zip_with(member, isdir=False):
     """an archive with one hostile member between two harmless ones; the member is a file or a bare directory entry
     (name ending in '/': what zipstream emits for an empty directory)"""
@@ -385,7 +414,13 @@ def run(prop, tier):
                         tid += 1
                         c = dict(base_case, out=out)
                         dec = {"result": "written", "dest": "cwd/base" if out == "unset" else "out/base", "replaces": False}
-                        obs = execute(root, c, dec, "tree", members=zip_with(MEMBER_NAMES[mc](root), isdir))
+                        if mc in SYMLINK_TARGETS:
+                            if isdir:
+                                continue
+                            zbytes = zip_with_symlink(SYMLINK_TARGETS[mc](root))
+                        else:
+                            zbytes = zip_with(MEMBER_NAMES[mc](root), isdir)
+                        obs = execute(root, c, dec, "tree", members=zbytes)
                         obs.update({"tid": tid, "case": dict(c, member=mc + ("/" if isdir else "")), "expect": dict(dec, member=verdict), "kind": "member"})
                         records.append(obs)
         finally:
